@@ -101,6 +101,14 @@ func Go(site string, f func()) {
 	go f()
 }
 
+// Yv yields after an operation whose value is v.
+func Yv[T any](site string, v T) T {
+	if f := YieldFn; f != nil {
+		f(site)
+	}
+	return v
+}
+
 // ZeroOf returns the zero value of a channel's element type (used to declare typed temporaries).
 func ZeroOf[T any](c <-chan T) (z T) { return }
 
